@@ -47,12 +47,14 @@ impl RowIdIndex {
                     final_chunks.push(chunk);
                 }
                 RawIndexChunk::Overlapping(range, overlapping_chunks) => {
-                    debug_assert_eq!(
-                        range.end() - range.start() + 1,
-                        overlapping_chunks
-                            .iter()
-                            .map(|(_, (seq, _))| seq.len() as u64)
-                            .sum::<u64>(),
+                    // Row ids are unique, so the chunks can hold at most one id
+                    // per position of the range they span (they may be sparse).
+                    debug_assert!(
+                        (range.end() - range.start()).saturating_add(1)
+                            >= overlapping_chunks
+                                .iter()
+                                .map(|(_, (seq, _))| seq.len() as u64)
+                                .sum::<u64>(),
                         "Wrong range for {:?}, chunks: {:?}",
                         range,
                         overlapping_chunks,
